@@ -364,6 +364,187 @@ def run(repo='/repo', tier='quick'):
     c18b(db, res)
     c18c(db, res)
     c18d(db, res)
+    c18e(db, res)
+    c18f(db, res)
+    c18g(db, res)
     res.assumptions += ['"later calls keep honouring the API contract" after a failed allocation is not decided', 'leaks on failure paths are not C18 violations (the statement does not ask for leak freedom under failure)',
                         'callees outside the library (libc, zlib) are trusted to tolerate what the code passes them']
     return res
+
+
+def c18e(db, res):
+    """Ownership across a failed call.  Where a caller releases an argument after the callee reported failure, the callee
+    must not have released it on the way out (and the other way round): each side is locally plausible, together they free
+    the object twice.  Summaries: RELEASES(h, j) - h passes parameter j to free or to a function that releases it;
+    RELEASES-ON-FAILURE(g, j) - such a release in g is followed by a return of NULL / HTP_ERROR."""
+    res.rule('C18.e', 'a failed call leaves its arguments to the caller: wherever a caller releases an argument on the failure branch of a call (result NULL / not HTP_OK), the callee releases that parameter on no path that returns failure (interprocedural release summaries)')
+    releases = {('free', 0)}
+    fns = [(n, f) for n, f in sorted(db.fn.items()) if f.blocks and not f.loc.startswith('htp/lzma')]
+
+    def arg_param(f, a):
+        a = strip(a)
+        if a is not None and a.get('k') == 'var' and a.get('decl') == 'param':
+            for k, p in enumerate(f.params):
+                if p['name'] == a['name']:
+                    return k
+        return None
+    changed = True
+    while changed:
+        changed = False
+        for n, f in fns:
+            for b, i, c in f.calls(None):
+                for j, a in enumerate(c.get('args', [])):
+                    if (c.get('callee'), j) in releases:
+                        k = arg_param(f, a)
+                        if k is not None and (n, k) not in releases:
+                            releases.add((n, k))
+                            changed = True
+
+    def is_failure(st):
+        e = strip(st.get('e')) if st.get('k') == 'return' else None
+        if e is None:
+            return False
+        return P.K(e) in ('0', 'HTP_ERROR', '-1') and (P.K(e) != '0' or (e.get('name') == 'NULL' or (e.get('t') or '').endswith('*') or e.get('macro') == 'NULL'))
+
+    on_failure = {}
+    for n, f in fns:
+        if (f.ret or '') == 'void':
+            continue
+        for b, i, c in f.calls(None):
+            for j, a in enumerate(c.get('args', [])):
+                if (c.get('callee'), j) not in releases:
+                    continue
+                k = arg_param(f, a)
+                if k is None:
+                    continue
+                hit = []
+
+                def visit(bb, ii, st, hit=hit):
+                    for r in nodes(st, lambda y: y.get('k') == 'return'):
+                        if is_failure(r):
+                            hit.append(r)
+                        return True
+                    return False
+                C.forward(f, (b, i), visit)
+                if hit:
+                    on_failure.setdefault((n, k), (c['loc'], hit[0]['loc']))
+    n_sites = 0
+    for n, f in fns:
+        for b, i, c in f.calls(None):
+            g = c.get('callee')
+            if g not in db.fn or not db.fn[g].blocks or (g, 0) in releases and len(c.get('args', [])) == 1:
+                continue
+            # the l-value that receives the result (or the call itself when it is tested in place)
+            st = f.blocks[b]['stmts'][i] if i < len(f.blocks[b]['stmts']) else None
+            keys = {P.K(c)}
+            if st is not None:
+                for x in nodes(st, lambda y: y.get('k') in ('assign', 'decl')):
+                    if x['k'] == 'assign' and strip(x['r']) is c:
+                        keys.add(P.K(x['l']))
+                    if x['k'] == 'decl':
+                        for v in x['vars']:
+                            if v.get('init') is not None and strip(v['init']) is c:
+                                keys.add(v['name'])
+            for j, a in enumerate(c.get('args', [])):
+                a0 = strip(a)
+                if a0 is None or a0.get('k') not in ('var', 'member') or not (a0.get('t') or '').endswith('*'):
+                    continue
+                ak = P.K(a0)
+                # releases of the same argument on a branch where the call is known to have failed
+                for b2, i2, c2 in f.calls(None):
+                    if not any((c2.get('callee'), j2) in releases and P.K(a2) == ak for j2, a2 in enumerate(c2.get('args', []))):
+                        continue
+                    failed = [a_ for a_, d in P.facts_at(f, b2) if a_[0] in keys and ((a_[1] == '==' and a_[2] in ('0', 'HTP_ERROR')) or (a_[1] == '!=' and a_[2] == 'HTP_OK') or (a_[1] == '<' and a_[2] == '0'))]
+                    if not failed or not C.reachable(f, b).__contains__(b2):
+                        continue
+                    n_sites += 1
+                    key = '%s:%s(%s)' % (n, g, ak)
+                    of = on_failure.get((g, j))
+                    res.check(of is None, 'C18.e', key, 'the callee does not release this parameter on a failing path; the caller does',
+                              '%s releases %s after %s reported failure (%s), and %s itself releases that parameter (at %s) on a path that returns failure (at %s): the object is freed twice' % (n, ak, g, c2['loc'], g, of and of[0], of and of[1]), c2['loc'])
+    res.analysed['C18.e'] = dict(release_summaries=len(releases), release_on_failure_summaries=len(on_failure), caller_sites=n_sites)
+    res.floor('C18.e', 'caller sites that release an argument after a failed call', n_sites, 10)
+    res.floor('C18.e', 'functions that release a parameter (summaries)', len(releases), 15)
+
+
+def c18f(db, res):
+    """Growing a buffer: the recorded capacity may change only once the reallocation has succeeded.  When the new size is
+    written into the owner's size field first and realloc then fails, the function leaves with a size that describes a
+    block it does not have; whoever uses the object next writes past the old block."""
+    res.rule('C18.f', 'the recorded capacity of a buffer changes only after the reallocation succeeded: at every realloc(P, E) whose failure leads to a return, no field of the object that owns P that E reads has been written earlier on a path to the call (or the failure branch writes it back); vendored LZMA decoder included')
+    n = 0
+    for name, f in sorted(db.fn.items()):
+        if not f.blocks:
+            continue
+        for b, i, c in f.calls('realloc'):
+            if len(c.get('args', [])) != 2:
+                continue
+            n += 1
+            P0 = strip(c['args'][0])
+            owner = P.K(P0['base']) if P0 is not None and P0.get('k') == 'member' else None
+            fields = [x for x in nodes(c['args'][1], lambda y: y.get('k') == 'member') if owner is not None and P.K(x['base']) == owner]
+            key = '%s:realloc(%s)' % (name, P.K(c['args'][0]))
+            if not fields:
+                res.holds('C18.f', key, 'the new size is not read from the owner (a local carries it until the reallocation has succeeded)', c['loc'])
+                continue
+            bad = None
+            back = C.backward_blocks(f, b)
+            rkeys = {P.K(c)}
+            for x in nodes(f.blocks[b]['stmts'][i], lambda y: y.get('k') in ('assign', 'decl')):
+                if x['k'] == 'assign' and strip(x['r']) is c:
+                    rkeys.add(P.K(x['l']))
+                if x['k'] == 'decl':
+                    rkeys |= {v['name'] for v in x['vars'] if v.get('init') is not None and strip(v['init']) is c}
+            for fx in fields:
+                fk = P.K(fx)
+                for b2, i2, st in f.stmts():
+                    if (b2 not in back and b2 != b) or (b2 == b and i2 >= i):
+                        continue
+                    ws = [w for w in nodes(st, lambda y: y.get('k') == 'assign' or (y.get('k') == 'un' and y.get('op') in ('++', '--', '++post', '--post'))) if P.K(w.get('l') if w['k'] == 'assign' else w['e']) == fk]
+                    if not ws:
+                        continue
+                    # written before the call: is it written back on the failure branch?
+                    restored = False
+                    for b3, i3, st3 in f.stmts():
+                        if any(a_[0] in rkeys and a_[1] == '==' and a_[2] == '0' for a_, d in P.facts_at(f, b3)) and b3 in C.reachable(f, b) and b3 != b:
+                            if any(P.K(w.get('l')) == fk for w in nodes(st3, lambda y: y.get('k') == 'assign')):
+                                restored = True
+                    if not restored:
+                        bad = (fk, ws[0]['loc'])
+            res.check(bad is None, 'C18.f', key, 'the size field is written only after the reallocation succeeded',
+                      '%s writes the new size into %s (at %s) before realloc and does not write it back when realloc fails: after a failed reallocation the object claims a capacity its block does not have, and the next use writes past the end of the old block' % (name, bad and bad[0], bad and bad[1]), c['loc'])
+    res.floor('C18.f', 'realloc sites', n, 5)
+
+
+def c18g(db, res):
+    """The LZMA decoder is allocated lazily, once its 13-byte header is complete, and the allocation is retried on the next
+    call when it fails (the step marker header_len stays at the header size).  Whatever marks the step as done, or touches
+    the decoder tables, has to come after the success test of LzmaDec_Allocate."""
+    res.rule('C18.g', 'lazy allocation of the LZMA decoder: in htp_gzip_decompressor_decompress every write that moves header_len past the header size, and every LzmaDec_Init, is dominated by the success edge of LzmaDec_Allocate (a failed allocation leaves the step to be retried and the decoder tables untouched)')
+    f = db.get('htp_gzip_decompressor_decompress')
+    allocs = f.calls('LzmaDec_Allocate')
+    res.floor('C18.g', 'LzmaDec_Allocate calls in htp_gzip_decompressor_decompress', len(allocs), 1)
+    if not allocs:
+        return
+    dom = C.dominators(f)
+    ab, ai, ac = allocs[0]
+    rkeys = set()
+    for x in nodes(f.blocks[ab]['stmts'][ai], lambda y: y.get('k') == 'assign'):
+        if strip(x['r']) is ac:
+            rkeys.add(P.K(x['l']))
+
+    def after_success(b, i):
+        if not ((ab in dom[b] and ab != b) or (ab == b and ai < i)):
+            return False
+        return any(a_[0] in rkeys and ((a_[1] == '==' and a_[2] in ('SZ_OK', '0')) or (a_[1] == '!=' and a_[2] not in ('SZ_OK', '0'))) for a_, d in P.facts_at(f, b)) if ab != b else False
+    n = 0
+    for b, i, st in f.stmts():
+        for w in nodes(st, lambda y: y.get('k') == 'un' and y.get('op', '').startswith('++') and P.K(y['e']).endswith('header_len')):
+            n += 1
+            res.check(after_success(b, i), 'C18.g', 'htp_gzip_decompressor_decompress:step-marker', 'the step is marked done only after LzmaDec_Allocate succeeded',
+                      'header_len is moved past the header size on a path that has not passed the success test of LzmaDec_Allocate: when the allocation fails the decoder is marked ready with its tables NULL, and the next chunk is decoded through them', w['loc'])
+        for c in nodes(st, lambda y: y.get('k') == 'call' and y.get('callee') == 'LzmaDec_Init'):
+            n += 1
+            res.check(after_success(b, i), 'C18.g', 'htp_gzip_decompressor_decompress:LzmaDec_Init', 'the decoder is initialised only after LzmaDec_Allocate succeeded',
+                      'LzmaDec_Init runs on a path that has not passed the success test of LzmaDec_Allocate', c['loc'])
+    res.floor('C18.g', 'step marker / LzmaDec_Init sites', n, 2)
